@@ -822,3 +822,128 @@ Example ex_glue_no_error :
             pr_report := {| r_buf := [{| sd_sev := SevWarning; sd_stage := StAnalysis; sd_labels := [] |}; of_pdiag toy_warn];
                             r_tag := None |} |}.
 Proof. reflexivity. Qed.
+
+(* ================================================================ old-style metadata lines
+   (src/parser/metadata.rs:5-46): empty key => error on the key position, else empty value =>
+   warning on the value position.  "Empty" is Text::is_text_empty: comments contribute no text. *)
+Definition is_comment_kind (k : tkind) : bool :=
+  match k with KLineComment | KBlockComment => true | _ => false end.
+
+Section Meta.
+  Variable cfg : pcfg.
+
+  (* tokens that are all comments contribute no fragment: the text is the empty text at its offset *)
+  Lemma text_loop_comments ts : forall off cs t,
+    forallb (fun tk => is_comment_kind (kind tk)) ts = true ->
+    text_loop cfg ts (text_empty off) cs [] = Done t -> t = text_empty off.
+  Proof.
+    induction ts as [|tk r IH]; intros off cs t Hc H; cbn [text_loop] in H.
+    - unfold append_str, append_fragment in H. cbn in H.
+      destruct (off <=? cs); [injection H as <-; reflexivity|discriminate].
+    - cbn [forallb] in Hc. apply andb_prop in Hc as [Hk Hr].
+      assert (Ha : forall X (f : text -> outcome X) r0, obind (append_str (text_empty off) [] cs) f = Done r0 ->
+                     f (text_empty off) = Done r0).
+      { intros X f r0 Hf. unfold append_str, append_fragment in Hf. cbn in Hf.
+        destruct (off <=? cs); [exact Hf|discriminate]. }
+      destruct (kind tk); try discriminate; apply Ha in H; eapply IH; eauto.
+  Qed.
+
+  Lemma text_of_comments off ts t :
+    forallb (fun tk => is_comment_kind (kind tk)) ts = true -> text_of cfg off ts = Done t -> t = text_empty off.
+  Proof.
+    intros Hc H. unfold text_of in H. destruct ts as [|t0 r]; [injection H as <-; reflexivity|].
+    destruct (off =? tstart t0); [|discriminate]. eapply text_loop_comments; eauto.
+  Qed.
+
+  (* what a metadata event was made from *)
+  Lemma metadata_entry_inv s key v s' :
+    metadata_entry cfg s = Done (Some (EvMetadata key v), s') ->
+    exists m s1 kts s2 c s3 vts s4,
+      consume KMeta s = Done (Some m, s1) /\
+      until (fun k => tk_eqb k KColon) s1 = Done (Some kts, s2) /\
+      text_of cfg (current_offset_of s1) kts = Done key /\
+      bump KColon s2 = Done (c, s3) /\
+      consume_rest s3 = Done (vts, s4) /\
+      text_of cfg (current_offset_of s3) vts = Done v /\
+      ((is_text_empty key = true -> In (mkdiag true D_EMPTY_META_KEY [text_span key]) (b_evs s')) /\
+       (is_text_empty key = false -> is_text_empty v = true ->
+          In (mkdiag false D_EMPTY_META_VALUE [text_span v; text_span key]) (b_evs s'))).
+  Proof.
+    intro H. unfold metadata_entry in H.
+    oinv H as m s1 E1. binv H as kp s1' E2. unfold current_offset in E2. injection E2 as <- <-.
+    binv H as ko s2 E3. destruct ko as [kts|].
+    2:{ binv H as al sx Ex. binv H as u sy Ey. discriminate. }
+    binv H as key0 s2' E4. binv H as c s3 E5. binv H as vp s3' E6. unfold current_offset in E6. injection E6 as <- <-.
+    binv H as vts s4 E7. binv H as v0 s4' E8. binv H as u s5 E9. injection H as <- <- <-.
+    unfold textM, lift in E4, E8.
+    destruct (text_of cfg (current_offset_of s1) kts) as [kt|] eqn:Ek; [|discriminate]. injection E4 as <- <-.
+    destruct (text_of cfg (current_offset_of s3) vts) as [vt|] eqn:Ev; [|discriminate]. injection E8 as <- <-.
+    exists m, s1, kts, s2, c, s3, vts, s4. repeat split; try assumption.
+    - intro He. rewrite He in E9. unfold error, event in E9. injection E9 as _ <-. left. reflexivity.
+    - intros He Hv. rewrite He, Hv in E9. unfold warn, event in E9. injection E9 as _ <-. left. reflexivity.
+  Qed.
+
+  Theorem complete_empty_metadata_key s key v s' :
+    metadata_entry cfg s = Done (Some (EvMetadata key v), s') -> is_text_empty key = true ->
+    In (mkdiag true D_EMPTY_META_KEY [text_span key]) (b_evs s').
+  Proof.
+    intros H He. destruct (metadata_entry_inv _ _ _ _ H) as (m & s1 & kts & s2 & c & s3 & vts & s4 & _ & _ & _ & _ & _ & _ & Hk & _).
+    exact (Hk He).
+  Qed.
+
+  Theorem complete_empty_metadata_value s key v s' :
+    metadata_entry cfg s = Done (Some (EvMetadata key v), s') ->
+    is_text_empty key = false -> is_text_empty v = true ->
+    In (mkdiag false D_EMPTY_META_VALUE [text_span v; text_span key]) (b_evs s').
+  Proof.
+    intros H He Hv. destruct (metadata_entry_inv _ _ _ _ H) as (m & s1 & kts & s2 & c & s3 & vts & s4 & _ & _ & _ & _ & _ & _ & _ & Hk).
+    exact (Hk He Hv).
+  Qed.
+
+  (* a key made of comments only (`>>[- k -]: v`): the error, at the position right after `>>` *)
+  Theorem complete_comment_only_metadata_key s key v s' :
+    metadata_entry cfg s = Done (Some (EvMetadata key v), s') ->
+    exists m s1 kts s2,
+      consume KMeta s = Done (Some m, s1) /\ until (fun k => tk_eqb k KColon) s1 = Done (Some kts, s2) /\
+      (forallb (fun tk => is_comment_kind (kind tk)) kts = true ->
+         In (mkdiag true D_EMPTY_META_KEY [(current_offset_of s1, current_offset_of s1)]) (b_evs s')).
+  Proof.
+    intro H. destruct (metadata_entry_inv _ _ _ _ H) as (m & s1 & kts & s2 & c & s3 & vts & s4 & Hm & Hu & Hk & _ & _ & _ & Hke & _).
+    exists m, s1, kts, s2. split; [exact Hm|]. split; [exact Hu|]. intro Hc.
+    rewrite (text_of_comments _ _ _ Hc Hk) in Hke. exact (Hke eq_refl).
+  Qed.
+
+  (* a value made of comments only (`>> k: -- later`): the warning, at the position right after `:` *)
+  Theorem complete_comment_only_metadata_value s key v s' :
+    metadata_entry cfg s = Done (Some (EvMetadata key v), s') -> is_text_empty key = false ->
+    exists c s3 vts s4,
+      consume_rest s3 = Done (vts, s4) /\ current_offset_of s3 = tend c /\ kind c = KColon /\
+      (forallb (fun tk => is_comment_kind (kind tk)) vts = true ->
+         In (mkdiag false D_EMPTY_META_VALUE [(tend c, tend c); text_span key]) (b_evs s')).
+  Proof.
+    intros H He. destruct (metadata_entry_inv _ _ _ _ H) as (m & s1 & kts & s2 & c & s3 & vts & s4 & Hm & Hu & Hk & Hb & Hr & Hv & _ & Hve).
+    assert (Hc3 : current_offset_of s3 = tend c /\ kind c = KColon).
+    { unfold bump in Hb. apply bind_inv in Hb as (t & sx & Eb & Hb). destruct (tk_eqb (kind t) KColon) eqn:Ek; [|discriminate].
+      injection Hb as <- <-. unfold bump_any in Eb. apply bind_inv in Eb as (o & sy & En & Eb).
+      destruct o as [t'|]; [|discriminate]. injection Eb as <- <-. unfold next_token in En.
+      destruct (b_rest s2) as [|t0 r0]; [discriminate|]. injection En as <- <-. split; [reflexivity|].
+      destruct (kind t0); try discriminate. reflexivity. }
+    destruct Hc3 as [Ho Hkc]. exists c, s3, vts, s4. split; [exact Hr|]. split; [exact Ho|]. split; [exact Hkc|].
+    intro Hc. rewrite <- Ho. pose proof (text_of_comments _ _ _ Hc Hv) as ->. exact (Hve He eq_refl).
+  Qed.
+End Meta.
+
+(* ">>[- k -]: v", ">> k: -- c", ">> k: [- c -]", ">>   : v", ">> k:" *)
+Example ex_meta_key_comment :
+  reports [62; 62; 91; 45; 32; 107; 32; 45; 93; 58; 32; 118] true D_EMPTY_META_KEY [(2, 2)] = true.
+Proof. vm_compute. reflexivity. Qed.
+Example ex_meta_value_line_comment :
+  reports [62; 62; 32; 107; 58; 32; 45; 45; 32; 99] false D_EMPTY_META_VALUE [(5, 6); (2, 4)] = true.
+Proof. vm_compute. reflexivity. Qed.
+Example ex_meta_value_block_comment :
+  reports [62; 62; 32; 107; 58; 32; 91; 45; 32; 99; 32; 45; 93] false D_EMPTY_META_VALUE [(5, 6); (2, 4)] = true.
+Proof. vm_compute. reflexivity. Qed.
+Example ex_meta_key_blanks : reports [62; 62; 32; 32; 32; 58; 32; 118] true D_EMPTY_META_KEY [(2, 5)] = true.
+Proof. vm_compute. reflexivity. Qed.
+Example ex_meta_value_none : reports [62; 62; 32; 107; 58] false D_EMPTY_META_VALUE [(5, 5); (2, 4)] = true.
+Proof. vm_compute. reflexivity. Qed.
